@@ -44,6 +44,7 @@ def configs(tier):
             for fl in ('py', 'np', 'mixed'):
                 cfgs.append(dict(group='norm', base=base, K=''.join(K), flavor=fl))
         cfgs.append(dict(group='norm_binary64', base=base, _cost=300))
+        cfgs.append(dict(group='many_keys', base=base, n_keys=40 if tier == 'quick' else 300, _cost=100))
         if tier == 'quick':
             cfgs.append(dict(group='history', base=base, keys='ab', T=3, _cost=64))
         else:
@@ -234,3 +235,28 @@ def _norm_binary64(env, cfg):
         if isinstance(o, F64Sym):
             env.claim('finite_for_every_nonzero_sum_including_subnormals', z3.Implies(moderate, o.is_finite().t))
     _ = tot2
+
+
+def _many_keys(env, cfg):
+    """key sets far larger than the enumerated ones: three updates over K keys (all, the odd ones, all plus new ones)"""
+    base, alpha = _base(env, cfg)
+    mvt = MultiValueTracker(base)
+    K = cfg['n_keys']
+    keys = [f"k{i}" for i in range(K)] + list(range(K))        # str and int keys
+    kind = cfg['base']
+    ref = {}
+    plans = [keys, keys[1::2], keys + [f"late{i}" for i in range(5)]]
+    for t, U in enumerate(plans):
+        values = {k: env.real(f"v{t}_{i}") for i, k in enumerate(U)}
+        guarded(env, 'update', mvt.update, values)
+        for k in set(ref) | set(U):
+            val, n = ref.get(k, (0, 0))
+            ref[k] = (ref_update(kind, val, n, alpha, values.get(k, 0)), n + 1)
+    got = mvt.get()
+    env.claim('keys_many', set(got.keys()) == set(ref.keys()) and len(got) == 2 * K + 5)
+    env.claim('count_many', eq(mvt.N, 3))
+    probe = [keys[0], keys[1], keys[K - 1], keys[K], keys[2 * K - 1], 'late0', 'late4']
+    for k in probe:
+        env.claim('value_since_first_appearance_many_keys', eq(got[k], ref[k][0]), detail=f"key {k!r}")
+    norm = guarded(env, 'get_normalized', mvt.get_normalized)
+    env.claim('normalised_keys_many', set(norm.keys()) == set(ref.keys()))
